@@ -6,7 +6,7 @@ From Coq.Strings Require Import Byte.
 Require Import GV.Base.Res GV.Base.Byt GV.Base.Ints GV.Spec.LebSpec GV.Model.Leb GV.Model.Prim.
 Require Import GV.Spec.OpEncSpec GV.Model.OpWr GV.Proofs.LebProofs GV.Proofs.OpWrProofs GV.Proofs.OpWrDec.
 Require Import GV.Model.OpDec GV.Model.OpVal GV.Model.OpEval GV.Spec.StackSpec GV.Proofs.OpDecProofs GV.Proofs.OpEvalProofs.
-Require Import GV.Proofs.OpRoundtrip GV.Proofs.OpEvalSim.
+Require Import GV.Proofs.OpRoundtrip GV.Proofs.OpEvalSim GV.Proofs.OpParseWf.
 Import ListNotations.
 Local Open Scope N_scope.
 
@@ -268,4 +268,214 @@ Proof.
   intros ops2 Hw2 Hl2 Hret F fuel dbg c answers Hc.
   eapply run_same; eauto.
   unfold blen in Hpos. change (2 ^ 63) with 9223372036854775808 in *. lia.
+Qed.
+
+(* ================= a computable canonical re-encoding ================= *)
+
+Definition i16b (d : Z) : bool := ((-32768 <=? d) && (d <? 32768))%Z.
+
+Fixpoint find_idx (A : list nat) (x : Z) (k : nat) : option nat :=
+  match A with
+  | [] => None
+  | a :: r => if (Z.of_nat a =? x)%Z then Some k else find_idx r x (S k)
+  end.
+
+(* the k-th operation with its branch re-aimed at the boundary of B that corresponds to the boundary of A it
+   reaches; None when it reaches no boundary or a displacement does not fit i16 *)
+Definition retarget (A B : list nat) (k : nat) (o : operation) : option operation :=
+  let tgt (d : Z) :=
+    match nth_error A (S k), nth_error B (S k) with
+    | Some a', Some b' =>
+        match find_idx A (Z.of_nat a' + d) 0 with
+        | Some j =>
+            match nth_error B j with
+            | Some bj => let d2 := (Z.of_nat bj - Z.of_nat b')%Z in
+                         if i16b d && i16b d2 then Some d2 else None
+            | None => None
+            end
+        | None => None
+        end
+    | _, _ => None
+    end in
+  match o with
+  | OSkip d => option_map OSkip (tgt d)
+  | OBra d => option_map OBra (tgt d)
+  | _ => Some o
+  end.
+
+Fixpoint canon_from (A B : list nat) (k : nat) (ros : list operation) : option (list operation) :=
+  match ros with
+  | [] => Some []
+  | o :: r =>
+      match retarget A B k o, canon_from A B (S k) r with
+      | Some o', Some l => Some (o' :: l)
+      | _, _ => None
+      end
+  end.
+
+Definition canon_ops (e' : OpDec.enc) (dl : list (N * dop)) (bs : list byte) (ros1 : list operation) : option (list operation) :=
+  canon_from (A_of dl bs) (B_of e' ros1) 0 ros1.
+
+Lemma find_idx_spec : forall A x k j, find_idx A x k = Some j ->
+  exists a, (k <= j)%nat /\ nth_error A (j - k) = Some a /\ Z.of_nat a = x.
+Proof.
+  induction A as [|a r IH]; intros x k j H; cbn [find_idx] in H; [discriminate|].
+  destruct (Z.of_nat a =? x)%Z eqn:E.
+  - inversion H; subst. exists a. rewrite Nat.sub_diag. split; [lia|]. split; [reflexivity|lia].
+  - destruct (IH _ _ _ H) as [a0 [L [N1 N2]]]. exists a0. split; [lia|].
+    replace (j - k)%nat with (S (j - S k)) by lia. auto.
+Qed.
+
+Lemma canon_from_nth A B : forall ros k ops2, canon_from A B k ros = Some ops2 ->
+  length ops2 = length ros /\
+  forall i o1, nth_error ros i = Some o1 -> exists o2, nth_error ops2 i = Some o2 /\ retarget A B (k + i) o1 = Some o2.
+Proof.
+  induction ros as [|o r IH]; intros k ops2 H; cbn [canon_from] in H.
+  - inversion H; subst. split; [reflexivity|]. intros i o1 Hi. destruct i; discriminate.
+  - destruct (retarget A B k o) as [o'|] eqn:Er; [|discriminate].
+    destruct (canon_from A B (S k) r) as [l|] eqn:El; [|discriminate]. inversion H; subst.
+    destruct (IH _ _ El) as [Hl Hn]. split; [cbn [length]; lia|].
+    intros i o1 Hi. destruct i as [|i]; cbn [nth_error] in *.
+    + inversion Hi; subst. exists o'. rewrite Nat.add_0_r. auto.
+    + destruct (Hn _ _ Hi) as [o2 [N1 N2]]. exists o2. replace (k + S i)%nat with (S k + i)%nat by lia. auto.
+Qed.
+
+Lemma retarget_size e' A B k o o' : retarget A B k o = Some o' -> length (enc_op e' o') = length (enc_op e' o).
+Proof.
+  unfold retarget. destruct o; intros H; try (inversion H; reflexivity).
+  - destruct (nth_error A (S k)), (nth_error B (S k)); try discriminate.
+    destruct (find_idx A _ 0); try discriminate. destruct (nth_error B n1); try discriminate.
+    destruct (i16b target && _); inversion H. cbn [enc_op length]. unfold enc_i16. rewrite !enc_un_len. reflexivity.
+  - destruct (nth_error A (S k)), (nth_error B (S k)); try discriminate.
+    destruct (find_idx A _ 0); try discriminate. destruct (nth_error B n1); try discriminate.
+    destruct (i16b target && _); inversion H. cbn [enc_op length]. unfold enc_i16. rewrite !enc_un_len. reflexivity.
+Qed.
+
+Lemma canon_from_sizes e' A B : forall ros k ops2, canon_from A B k ros = Some ops2 ->
+  map (@length byte) (map (enc_op e') ops2) = map (@length byte) (map (enc_op e') ros).
+Proof.
+  induction ros as [|o r IH]; intros k ops2 H; cbn [canon_from] in H.
+  - inversion H; reflexivity.
+  - destruct (retarget A B k o) as [o'|] eqn:Er; [|discriminate].
+    destruct (canon_from A B (S k) r) as [l|] eqn:El; [|discriminate]. inversion H; subst.
+    cbn [map]. rewrite (retarget_size _ _ _ _ _ _ Er), (IH _ _ El). reflexivity.
+Qed.
+
+Lemma orel_refl pts a' b' o : (forall d, o <> OSkip d) -> (forall d, o <> OBra d) -> orel pts a' b' o o.
+Proof. intros H1 H2. destruct o; cbn; try reflexivity; exfalso; [eapply H2|eapply H1]; reflexivity. Qed.
+
+Theorem canon_ops_retargeted e' dl bs ros1 ops2 :
+  canon_ops e' dl bs ros1 = Some ops2 -> retargeted (A_of dl bs) (B_of e' ops2) ros1 ops2.
+Proof.
+  unfold canon_ops. intros H.
+  assert (HB : B_of e' ops2 = B_of e' ros1) by (unfold B_of; rewrite (canon_from_sizes _ _ _ _ _ _ H); reflexivity).
+  rewrite HB. set (A := A_of dl bs) in *. set (B := B_of e' ros1) in *.
+  destruct (canon_from_nth _ _ _ _ _ H) as [Hl Hn]. split; [symmetry; exact Hl|].
+  intros k o1 o2 a' b' K1 K2 KA KB.
+  destruct (Hn _ _ K1) as [o2' [K2' Hr]]. rewrite K2 in K2'. inversion K2'; subst o2'. cbn [Nat.add] in Hr.
+  assert (Hgen : forall d d2 (mk : Z -> operation),
+            (match find_idx A (Z.of_nat a' + d) 0 with
+             | Some j => match nth_error B j with
+                         | Some bj => if i16b d && i16b (Z.of_nat bj - Z.of_nat b') then Some (Z.of_nat bj - Z.of_nat b')%Z else None
+                         | None => None end
+             | None => None end) = Some d2 ->
+            i16 d /\ i16 d2 /\ exists aj bj, In (aj, bj) (combine A B) /\
+              (Z.of_nat a' + d = Z.of_nat aj)%Z /\ (Z.of_nat b' + d2 = Z.of_nat bj)%Z).
+  { intros d d2 _ Ht. destruct (find_idx A (Z.of_nat a' + d) 0) as [j|] eqn:Ef; [|discriminate].
+    destruct (nth_error B j) as [bj|] eqn:Eb; [|discriminate].
+    destruct (i16b d && i16b (Z.of_nat bj - Z.of_nat b')) eqn:Ei; [|discriminate]. inversion Ht; subst d2.
+    destruct (find_idx_spec _ _ _ _ Ef) as [aj [_ [Na Za]]]. rewrite Nat.sub_0_r in Na.
+    unfold i16b, i16 in *. split; [lia|]. split; [lia|]. exists aj, bj.
+    split; [eapply combine_nth; eauto|]. split; lia. }
+  unfold retarget in Hr. rewrite KA, KB in Hr.
+  destruct o1; try (inversion Hr; subst; apply orel_refl; intros d Hd; discriminate Hd).
+  - (* Bra *) destruct (match find_idx A (Z.of_nat a' + target) 0 with Some j => _ | None => None end) as [d2|] eqn:Et;
+      [|discriminate]. inversion Hr; subst. cbn [orel]. eapply (Hgen target d2 OBra). exact Et.
+  - (* Skip *) destruct (match find_idx A (Z.of_nat a' + target) 0 with Some j => _ | None => None end) as [d2|] eqn:Et;
+      [|discriminate]. inversion Hr; subst. cbn [orel]. eapply (Hgen target d2 OSkip). exact Et.
+Qed.
+
+Theorem eval_same_canon dbg0 e uo refs base ex bs fx :
+  forallb OpWr.wf_op ex = true -> wf_uoffs uo = true -> forallb decodable ex = true ->
+  base + blen bs < 2 ^ 63 ->
+  write_expr dbg0 e uo refs base ex = Ok (bs, fx) ->
+  exists dl ros1,
+    decode (dcfg_of e) bs = Some dl /\
+    operations true (renc (dcfg_of e)) bs = (ros1, None) /\
+    map (fun x => tr (snd x)) dl = map Some ros1 /\
+    forall ops2,
+      canon_ops (renc (dcfg_of e)) dl bs ros1 = Some ops2 ->
+      Forall (StackSpec.wf_op (renc (dcfg_of e))) ops2 ->
+      N.of_nat (length (canon_bytes (renc (dcfg_of e)) ops2)) < 2 ^ 63 ->
+      forall F fuel dbg c answers, c_enc c = renc (dcfg_of e) ->
+        run F fuel dbg c bs answers = run F fuel dbg c (canon_bytes (renc (dcfg_of e)) ops2) answers.
+Proof.
+  intros Hwf Huo Hd Hpos H.
+  destruct (eval_same_lemma _ _ _ _ _ _ _ _ Hwf Huo Hd Hpos H) as [dl [ros1 [E1 [E2 [E3 E4]]]]].
+  exists dl, ros1. split; [exact E1|]. split; [exact E2|]. split; [exact E3|].
+  intros ops2 Hc Hw Hl. apply E4; [exact Hw|exact Hl|]. apply canon_ops_retargeted. exact Hc.
+Qed.
+
+(* ---- the canonical operations are well-formed: no side condition left on them ---- *)
+Lemma operations_fuel_wf dbg e' : e_asz e' < 256 -> forall fuel bs ros st,
+  operations_fuel fuel dbg e' bs = (ros, st) -> Forall (StackSpec.wf_op e') ros.
+Proof.
+  intros Ha. induction fuel as [|fuel IH]; intros bs ros st H; cbn [operations_fuel] in H.
+  - inversion H; constructor.
+  - destruct bs as [|b r]; [inversion H; constructor|].
+    destruct (parse_op dbg e' (b :: r)) as [[o t]|x| |] eqn:Ep; try (inversion H; constructor).
+    destruct (operations_fuel fuel dbg e' t) as [l t'] eqn:El. inversion H; subst.
+    constructor; [eapply parse_wf; eauto|eapply IH; eauto].
+Qed.
+
+Lemma i16b_in_signed d : i16b d = true -> in_signed 16 d = true.
+Proof. unfold i16b, in_signed. change (Z.of_N (2 ^ (16 - 1))) with 32768%Z. lia. Qed.
+
+Lemma retarget_wf e' A B k o o' : StackSpec.wf_op e' o -> retarget A B k o = Some o' -> StackSpec.wf_op e' o'.
+Proof.
+  unfold retarget. intros Hw H. destruct o; try (inversion H; subst; exact Hw).
+  - destruct (nth_error A (S k)), (nth_error B (S k)); try discriminate.
+    destruct (find_idx A _ 0); try discriminate. destruct (nth_error B n1); try discriminate.
+    destruct (i16b target && i16b (Z.of_nat n2 - Z.of_nat n0)) eqn:E; inversion H; subst.
+    cbn [StackSpec.wf_op]. apply i16b_in_signed. apply andb_true_iff in E. tauto.
+  - destruct (nth_error A (S k)), (nth_error B (S k)); try discriminate.
+    destruct (find_idx A _ 0); try discriminate. destruct (nth_error B n1); try discriminate.
+    destruct (i16b target && i16b (Z.of_nat n2 - Z.of_nat n0)) eqn:E; inversion H; subst.
+    cbn [StackSpec.wf_op]. apply i16b_in_signed. apply andb_true_iff in E. tauto.
+Qed.
+
+Lemma canon_from_wf e' A B : forall ros k ops2, Forall (StackSpec.wf_op e') ros ->
+  canon_from A B k ros = Some ops2 -> Forall (StackSpec.wf_op e') ops2.
+Proof.
+  induction ros as [|o r IH]; intros k ops2 HF H; cbn [canon_from] in H.
+  - inversion H; constructor.
+  - destruct (retarget A B k o) as [o'|] eqn:Er; [|discriminate].
+    destruct (canon_from A B (S k) r) as [l|] eqn:El; [|discriminate]. inversion H; subst.
+    inversion HF; subst. constructor; [eapply retarget_wf; eauto|eapply IH; eauto].
+Qed.
+
+(* eval_same with the only side conditions that are not automatic: the canonical re-encoding exists (its
+   re-computed branch displacements fit i16) and is shorter than 2^63 bytes *)
+Theorem eval_same_final dbg0 e uo refs base ex bs fx :
+  wf_enc e = true ->
+  forallb OpWr.wf_op ex = true -> wf_uoffs uo = true -> forallb decodable ex = true ->
+  base + blen bs < 2 ^ 63 ->
+  write_expr dbg0 e uo refs base ex = Ok (bs, fx) ->
+  exists dl ros1,
+    decode (dcfg_of e) bs = Some dl /\
+    operations true (renc (dcfg_of e)) bs = (ros1, None) /\
+    map (fun x => tr (snd x)) dl = map Some ros1 /\
+    forall ops2,
+      canon_ops (renc (dcfg_of e)) dl bs ros1 = Some ops2 ->
+      N.of_nat (length (canon_bytes (renc (dcfg_of e)) ops2)) < 2 ^ 63 ->
+      forall F fuel dbg c answers, c_enc c = renc (dcfg_of e) ->
+        run F fuel dbg c bs answers = run F fuel dbg c (canon_bytes (renc (dcfg_of e)) ops2) answers.
+Proof.
+  intros He Hwf Huo Hd Hpos H.
+  destruct (eval_same_canon _ _ _ _ _ _ _ _ Hwf Huo Hd Hpos H) as [dl [ros1 [E1 [E2 [E3 E4]]]]].
+  exists dl, ros1. split; [exact E1|]. split; [exact E2|]. split; [exact E3|].
+  intros ops2 Hc Hl. apply E4; [exact Hc| |exact Hl].
+  unfold canon_ops in Hc. eapply canon_from_wf; [|exact Hc].
+  unfold operations in E2. eapply operations_fuel_wf; [|exact E2].
+  unfold renc, dcfg_of. cbn [e_asz d_asize]. unfold wf_enc in He. apply andb_true_iff in He. destruct He as [_ He]. lia.
 Qed.
